@@ -258,3 +258,37 @@ func H_for_forms() {
 	want = append(want, 100+i)
 	same(got, ok, want, "for-forms `"+src+"`")
 }
+
+// H_no_return: a function, method, static method or closure whose body ends without executing a
+// return yields null, whatever its last statement computed; an arrow function yields its expression.
+func H_no_return() {
+	a := symx.Int("a")
+	form, tail := symx.Choose("form", 5), symx.Choose("tail", 5)
+	tails := []string{
+		"$x = $p + 1;",
+		"$p + 1;",
+		"if ($p == $p + 1) { return 7; }",
+		"for ($i = 0; $i < 2; $i++) { $x = $i; }",
+		"$x = [1, 2]; $x[] = $p;",
+	}
+	body := tails[tail]
+	var decl, call string
+	switch form {
+	case 0:
+		decl, call = "function nr($p) { "+body+" }", "nr($a)"
+	case 1:
+		decl, call = "class NR { function m($p) { "+body+" } } $o = new NR();", "$o->m($a)"
+	case 2:
+		decl, call = "class NR { static function m($p) { "+body+" } }", "NR::m($a)"
+	case 3:
+		decl, call = "$f = function($p) { "+body+" };", "$f($a)"
+	case 4:
+		decl, call = "$f = fn($p) => $p + 1;", "$f($a)"
+	}
+	got, ok := run(decl+" $r = "+call+"; emit(($r === null) ? 1 : 0);", map[string]int{"a": a})
+	want := []int{1}
+	if form == 4 {
+		want = []int{0}
+	}
+	same(got, ok, want, "no-return: `"+decl+"`")
+}
